@@ -454,14 +454,17 @@
 (define (regexp-advance! search? init? rx str start end . o)
   (let ((rx (regexp rx))
         (state (if (pair? o) (car o) (make-regexp-state)))
+        ;; Optionally begin at a later position, keeping start as the
+        ;; beginning of the string for bos, bol, bow, etc.
+        (from (if (and (pair? o) (pair? (cdr o))) (cadr o) start))
         (epsilons (posse)))
-    (let lp ((i start)
+    (let lp ((i from)
              (searchers1 (posse))
              (searchers2 (posse)))
       ;; Advance initial epsilons once from the first index, or every
       ;; time when searching.
       (cond
-       ((or search? (and init? (string-cursor=? i start)))
+       ((or search? (and init? (string-cursor=? i from)))
         (posse-advance! searchers1 epsilons state (make-start-searcher rx str)
                         str i start end (not search?))
         (posse-clear! epsilons)))
@@ -503,8 +506,11 @@
 
 ;; Run so long as there is more to match.
 
-(define (regexp-run-offsets search? rx str start end)
-  (let ((state (regexp-advance! search? #t rx str start end)))
+(define (regexp-run-offsets search? rx str start end . o)
+  (let ((state (if (pair? o)
+                   (regexp-advance! search? #t rx str start end
+                                    (make-regexp-state) (car o))
+                   (regexp-advance! search? #t rx str start end))))
     (and (searcher? (regexp-state-accept state))
          (let ((matches (searcher-matches (regexp-state-accept state))))
            (and (or search? (string-cursor>=? (regexp-match-ref matches 1) end))
@@ -1081,7 +1087,8 @@
              (from start)
              (acc knil))
       (cond
-       ((and (string-cursor<? i end) (regexp-run-offsets #t rx str i end))
+       ((and (string-cursor<? i end)
+             (regexp-run-offsets #t rx str start end i))
         => (lambda (md)
              (let ((j (regexp-match-ref md 1)))
                (lp (if (and (string-cursor=? i j) (string-cursor<? j end))
